@@ -22,7 +22,12 @@ RULE = ('programs of facts fact_i(L, V1..Vn), rules body_i(R, V1..Vn) :- R = L a
         'atoms (spaces, quotes, line breaks, tabs, non-ASCII incl. astral and combining code points, digits-only, empty, [] ), '
         'integers with leading zeros and bignums, named and anonymous variables, compound terms with plain, quoted and operator '
         'names, nesting up to depth 6, lists of 0-4 items, [..|T] patterns, \'.\'(H,T). Each literal is queried with its variables '
-        'unbound and bound to ground values, compared with API-built terms from the same and from another engine. '
+        'unbound and bound to ground values, compared with API-built terms from the same and from another engine. All literals of a program '
+        'also together in one clause head and one clause body; groups of 2-4 DIFFERENT literals that print alike when quotes are left out '
+        '(a subterm / a run of arguments with its commas / the inside of a list pattern as ONE atom; number, variable, _ as atoms); atoms of '
+        'characters that text layers treat specially (all str.splitlines breaks, CR LF, lone CR, Unicode spaces, controls, byte order marks); '
+        'clause layout LF / CR LF / CR; the fact/body/atom clauses compiled through every entry point (string, file of the UTF-8 bytes, the '
+        'command line from a file and from standard input) must denote the same terms. '
         'Non-trivial: the literal contains a quoted atom with a quote, line break or non-ASCII character, or a list pattern. '
         'Distinct by hash of the program text.')
 TRUSTED_BASE = [
